@@ -151,21 +151,38 @@ def _finish(pair):
     def fix(item):
         return ['stub', pool[item[1]]] if item[0] == 'stub' else item
 
-    # Every element i >= 1 is a member of the "children" array of an earlier element (a spanning tree, so the whole
-    # graph is reachable from the root); the drawn links and element attributes add sharing, cycles, NULLs and stubs.
-    children = [[fix(x) for x in e[4]] for e in elems]
-    for i in range(1, len(elems)):
-        kids = children[elems[i][6] % i]
-        kids.insert((elems[i][6] // 12) % (len(kids) + 1), ['e', i])
-    out = []
-    for i, (etype, ename, attrs, link_name, _, link_pos, _, post) in enumerate(elems):
+    # Every element i >= 1 hangs off an earlier element (a spanning tree, so the whole graph is reachable from the
+    # root): two thirds as members of the parent's "children" array, one third as the value of a scalar element
+    # attribute of the parent (the only way an element is written *inline as an attribute value* by the nested text
+    # layout).  The drawn links and element attributes add sharing, cycles, NULLs and stubs.
+    def taken(alist, name):
+        return name.casefold() == 'name' or any(a[0].casefold() == name.casefold() for a in alist)
+
+    alists = []
+    for etype, ename, attrs, link_name, _, link_pos, _, post in elems:
         alist = []
         for nm, (vt, (is_arr, val)) in attrs:
             if vt == 'element':
                 val = [fix(x) for x in val] if is_arr else fix(val)
             alist.append([nm, vt, is_arr, val])
+        alists.append(alist)
+    children = [[fix(x) for x in e[4]] for e in elems]
+    for i in range(1, len(elems)):
+        draw = elems[i][6]
+        parent = draw % i
+        if (draw // 12) % 3 == 0:
+            name = elems[i][3]
+            while taken(alists[parent], name):
+                name += '_'
+            alists[parent].insert(elems[i][5] % (len(alists[parent]) + 1), [name, 'element', False, ['e', i]])
+        else:
+            kids = children[parent]
+            kids.insert((draw // 12) % (len(kids) + 1), ['e', i])
+    out = []
+    for i, (etype, ename, attrs, link_name, _, link_pos, _, post) in enumerate(elems):
+        alist = alists[i]
         if children[i]:
-            while any(a[0].casefold() == link_name.casefold() for a in alist) or link_name.casefold() == 'name':
+            while taken(alist, link_name):
                 link_name += '_'
             alist.insert(link_pos % (len(alist) + 1), [link_name, 'element', True, children[i]])
         ed = {'type': etype, 'name': ename, 'uuid': hexes[i], 'attrs': alist}
@@ -205,10 +222,7 @@ def _graphs(max_elems, max_attrs, max_array, ascii_only, nul, vtypes, kv2_safe_t
     # element values, which the nested text layout writes inline through a separate code path).
     name_choices = [text, text, st.sampled_from(COMMON_ATTR_NAMES)]
     if not ascii_only:
-        name_choices.append(st.one_of(
-            st.sampled_from(FOLD_ATTR_NAMES),
-            st.text(FOLD_CHARS + 'aZ', min_size=1, max_size=4),
-        ))
+        name_choices += [st.sampled_from(FOLD_ATTR_NAMES), st.text(FOLD_CHARS + 'aZ', min_size=1, max_size=4)]
     attr_name = st.one_of(name_choices).filter(lambda s: s.casefold() != 'name')
     type_name = st.one_of(text, st.sampled_from(COMMON_TYPES))
     if kv2_safe_types:
@@ -646,8 +660,8 @@ def graph_facts(canon: dict) -> dict:
                         if x == 0.0:
                             facts['zero_signs'].add(math.copysign(1.0, x))
             if vt == 'element':
-                if nm.lower() != nm.casefold():
-                    facts['fold_name_elem'].append([x[1] for x in (val if is_arr else [val]) if x[0] == 'elem'])
+                if not is_arr and nm.lower() != nm.casefold() and val[0] == 'elem':
+                    facts['fold_name_elem'].append([val[1]])
                 for item in (val if is_arr else [val]):
                     if item[0] == 'elem':
                         indeg[item[1]] += 1
@@ -664,7 +678,7 @@ def graph_facts(canon: dict) -> dict:
                             facts['null_in_array'] = True
     facts['shared'] = any(d >= 2 for d in indeg[1:]) or indeg[0] >= 1
     facts['signed_zeros'] = len(facts['zero_signs']) == 2
-    # an element value under a name with lower() != casefold() that the nested text layout writes inline
+    # a scalar element value under a name with lower() != casefold() that the nested text layout writes inline
     facts['fold_name_inline'] = any(t != 0 and indeg[t] == 1 for targets in facts['fold_name_elem'] for t in targets)
     # cycle: iterative three-colour DFS
     colour = [0] * len(nodes)
